@@ -1,8 +1,10 @@
 """File-system tree generation / materialisation shared by C06, C13 (and usable by C18)."""
+import hashlib
 import os
 import random
 import shutil
 import stat
+import subprocess
 import tempfile
 from contextlib import contextmanager
 
@@ -130,8 +132,9 @@ def gen_spelling(rng, plain=0.5):
 
 
 @contextmanager
-def spelled_root(t, spelling):
-    """materialise t in a fresh temporary directory <tmp>, make <tmp> the working directory, and yield
+def spelled_root(t, spelling, case=None):
+    """(case: the whole case when it has a "chain" field - the tree is then materialised and removed iteratively)
+    materialise t in a fresh temporary directory <tmp>, make <tmp> the working directory, and yield
     (path in the requested spelling, <tmp>, plain real path of the tree); everything is undone afterwards"""
     tmp = tempfile.mkdtemp(prefix="swhv").encode()
     cwd = os.getcwd()
@@ -178,13 +181,127 @@ def spelled_root(t, spelling):
                 os.mkdir(j(tmp, b"x"))
             path = {"slash1": real + b"/", "slash3": real + b"///", "rel": b"root", "reldot": b"./root",
                     "dot": tmp + b"/./root", "dotdot": tmp + b"/x/../root"}.get(spelling, real)
-        materialise(t, real)
+        if case is not None and case.get("chain"):
+            materialise_chain(case, real)
+        else:
+            materialise(t, real)
         yield path, tmp, real
     finally:
         os.chdir(cwd)
         for x in extra:
             shutil.rmtree(x, ignore_errors=True)
-        shutil.rmtree(tmp, ignore_errors=True)
+        if case is not None and case.get("chain"):
+            rm_rf(tmp)
+        else:
+            shutil.rmtree(tmp, ignore_errors=True)
+
+
+# ---------------------------------------------------------------- deep chains (shared by C06 and C13)
+# A case with "chain": N designates the tree  d/d/.../d/<case["tree"]>  : N nested directories named "d" around the
+# case's (small) tree; with "chain_file": k > 0 the directory at every level l < N with l % k == 0 also holds a file "f".
+# Everything here is ITERATIVE (the JSON stays shallow, no recursion over the chain): the point of these cases is the
+# recursion limit of the library, which must not be confused with one of the harness.
+CHAIN_NAME = b"d"
+CHAIN_FILE = b"f"
+
+
+def chain_file(level):
+    return {"t": "R", "d": (b"level %d\n" % level).hex(), "m": 0o644}
+
+
+def chain_has_file(c, level):
+    k = c.get("chain_file", 0)
+    return bool(k) and level % k == 0
+
+
+def rm_rf(path):
+    """shutil.rmtree recurses (and dies) on very deep trees"""
+    subprocess.run(["rm", "-rf", "--", os.fsdecode(path)], check=False)
+
+
+def materialise_chain(c, path):
+    """level 0 = path; the case's tree is the directory at level N"""
+    p = path
+    for level in range(c["chain"]):
+        os.mkdir(p)
+        if chain_has_file(c, level):
+            materialise(chain_file(level), p + b"/" + CHAIN_FILE)
+        p = p + b"/" + CHAIN_NAME
+    materialise(c["tree"], p)
+
+
+def enc_chain(c):
+    """driver encoding of the whole tree of a chain case, by concatenation"""
+    parts = []
+    for level in range(c["chain"]):
+        parts.append("D[" + ("%s=%s;" % (CHAIN_FILE.hex(), enc_tree(chain_file(level))) if chain_has_file(c, level) else "")
+                     + CHAIN_NAME.hex() + "=")
+    return "".join(parts) + enc_tree(c["tree"]) + "]" * c["chain"]
+
+
+def _git_obj(kind, body):
+    return hashlib.sha1(kind + b" %d\0" % len(body) + body).hexdigest()
+
+
+def _ref_mode(t):
+    if t["t"] == "D":
+        return b"40000"
+    if t["t"] == "L":
+        return b"120000"
+    return b"100755" if t["m"] & 0o111 else b"100644"
+
+
+def ref_tree_object_id(entries):
+    """entries: [(name bytes, is_dir, mode bytes, id hex)] -> git tree id (independent of the library and of the model)"""
+    es = sorted(entries, key=lambda e: e[0] + (b"/" if e[1] else b""))
+    return _git_obj(b"tree", b"".join(m + b" " + n + b"\0" + bytes.fromhex(i) for n, _d, m, i in es))
+
+
+def ref_ids(t, prefix=b"", acc=None):
+    """{path: id hex} of a SMALL tree (recursive), ids by git's rules"""
+    acc = acc if acc is not None else {}
+    if t["t"] == "R":
+        acc[prefix] = _git_obj(b"blob", bytes.fromhex(t["d"]))
+    elif t["t"] == "L":
+        acc[prefix] = _git_obj(b"blob", bytes.fromhex(t["x"]))
+    elif t["t"] == "S":
+        acc[prefix] = _git_obj(b"blob", b"")
+    else:
+        es = []
+        for n, ch in t["c"]:
+            nm = bytes.fromhex(n)
+            p = prefix + b"/" + nm if prefix else nm
+            ref_ids(ch, p, acc)
+            es.append((nm, ch["t"] == "D", _ref_mode(ch), acc[p]))
+        acc[prefix] = ref_tree_object_id(es)
+    return acc
+
+
+def ref_chain(c):
+    """reference ids of a chain case, bottom-up loop: {"levels": [id of the directory at level 0..N], "bottom": {path
+    relative to the bottom tree: id}} (node_id_chain / C06_chain_id is the theorem behind the loop)"""
+    bottom = ref_ids(c["tree"])
+    cur = bottom[b""]
+    levels = [cur]
+    for level in range(c["chain"] - 1, -1, -1):
+        es = [(CHAIN_NAME, True, b"40000", cur)]
+        if chain_has_file(c, level):
+            f = chain_file(level)
+            es.append((CHAIN_FILE, False, _ref_mode(f), _git_obj(b"blob", bytes.fromhex(f["d"]))))
+        cur = ref_tree_object_id(es)
+        levels.append(cur)
+    levels.reverse()
+    return {"levels": levels, "bottom": {hx(k): v for k, v in bottom.items()}}
+
+
+def impl_chain(d, max_levels):
+    """the same shape read off a from_disk.Directory, iteratively: follow the entry "d" while there is one"""
+    levels = [d.hash.hex()]
+    node = d
+    while len(levels) <= max_levels and CHAIN_NAME in node and hasattr(node[CHAIN_NAME], "entries"):
+        node = node[CHAIN_NAME]
+        levels.append(node.hash.hex())
+    return {"levels": levels, "bottom": {hx(k): v for k, v in collect_ids(node).items()}}
 
 
 @contextmanager
